@@ -137,3 +137,12 @@ Definition one_openb (s : store) : bool := forallb (fun kn => Nat.eqb (nopen (sn
 Definition canon_hyp (woff aoff : nat) (s : store) (c : id) : bool :=
   wfsb s && amem c (nodes s) && iso_check (s, Some c) && one_openb s && plain_offb s c
   && Nat.ltb 0 woff && Nat.leb (next_wire s) woff && Nat.leb (next_atom s) aoff.
+
+(* per-instance driver for the harness: the model's canonical form (centre c, REDUCED mode, temporary identifier 4999) of
+   the state built by kops satisfies the structural hypotheses of the bridge theorems *)
+Definition canon_case (kops : list op) (c : id) (woff aoff : nat) : bool :=
+  let s := fst (run empty_store kops) in
+  match canonical_form (s, None) c Reduced 4999 with
+  | Some cs => canon_hyp woff aoff (fst cs) c
+  | None => false
+  end.
